@@ -191,3 +191,35 @@ func (x *Exec) FakeSlice(n *Term) *SliceV {
 
 // Assume adds an assumption from a driver-side stub (same effect as vp.Assume in a harness).
 func (x *Exec) Assume(t *Term) { x.H.Assumes = append(x.H.Assumes, t) }
+
+// ExtendField is a pointer to field i of the struct p points to.
+func (x *Exec) ExtendField(p *PtrV, i int) *PtrV { return x.extend(p, PathEl{Field: i}) }
+
+// AddAssert adds an assertion from a driver-side stub: under guard g, cond must hold.
+func (x *Exec) AddAssert(label string, g, cond *Term) {
+	x.H.Asserts = append(x.H.Asserts, Assertion{Label: label, G: g, Bad: x.C.And(g, x.C.Not(cond)),
+		NAssume: len(x.H.Assumes), NPanic: len(x.Panics), NUnwind: len(x.Unwinds), Pos: "engine-side observer"})
+}
+
+// ExtendIndex is a pointer to element i of the array p points to.
+func (x *Exec) ExtendIndex(p *PtrV, i int) *PtrV {
+	return x.extend(p, PathEl{Field: -1, Idx: x.C.Const(64, uint64(i))})
+}
+
+// SliceElem reads element i of a slice.
+func (x *Exec) SliceElem(s *SliceV, i int) Val { return x.sliceElem(s, x.i64(int64(i))) }
+
+// GlobalPtr is a pointer to a package-level variable.
+func (x *Exec) GlobalPtr(g *ssa.Global) *PtrV { return ptrTo(x.global(g), x.C.True) }
+
+// TableToArray materialises a constant table view.
+func (x *Exec) TableToArray(t *TableV) *ArrayV { return x.tableToArray(t).(*ArrayV) }
+
+// StoreSliceElem stores v into s[i] under guard g.
+func (x *Exec) StoreSliceElem(s *SliceV, i int, v Val, g *Term) {
+	if s.Obj == nil {
+		return
+	}
+	path := append(append([]PathEl(nil), s.Path...), PathEl{Field: -1, Idx: x.C.Add(s.Off, x.i64(int64(i)))})
+	s.Obj.V = x.storePath(s.Obj.V, path, v, g)
+}
